@@ -127,6 +127,7 @@ PROPS = {
         "theorems": ["SV.Props.C16.unit_operations_hold_the_lock_throughout", "SV.Props.C16.factory_refuses_batch_larger_than_cache", "SV.Props.C16.real_cachers_satisfy_the_contract", "SV.Props.C16.unit_over_size_lru", "SV.Props.C16.unit_over_lru", "SV.Props.C16.unit_over_fifo", "SV.Props.C16.real_unit_rejected_put_not_served", "SV.Props.C16.behaves_like_map_of_acknowledged_writes", "SV.Props.C16.rejected_put", "SV.Props.C16.remove_both_layers", "SV.Props.C16.get_is_readonly"],
         "modules": ["SV.Props.C16"],
         "runs": [{"component": "unit", "thorough_seeds": 2}],
+        "exhaustive": "thorough: all 13^5 histories over {put ok/rejected, get ok/failing, rm ok/rejected} x 2 keys + clearcache, for the LRU, the size LRU and the FIFO cache at capacity 1 (3 x 371293 histories)",
         "rule": 'random Put/Get/Has/Remove/ClearCache/GetBulk histories on storageUnit.Unit over every cacher the factory builds (LRU, SizeLRU, FIFOSharded) at capacities 1-6, over memorydb behind a fault-injecting wrapper (Put/Get/Remove rejected at random positions) and over real leveldb.DB / SerialDB; after every operation the injected cacher is read back (Keys/Peek) and fed to the model as the eviction outcome; distinct = distinct (operation kind, canonical output) pairs',
         "assumptions": ['the cacher is modelled as ANY cache that only returns what was put and not removed since (its eviction outcome is an input)', 'persister = map with a fault oracle'],
     },
@@ -134,6 +135,7 @@ PROPS = {
         "theorems": ["SV.Props.C17.adapter_put_holds_the_lock_throughout", "SV.Props.C17.source_eviction_test_is_the_models", "SV.Props.C17.never_loses_all_entry_points", "SV.Props.C17.live_keys_characterised", "SV.Props.C17.hasOrAdd_is_has_then_put", "SV.Props.C17.hasOrAdd_spills_before_dropping", "SV.Props.C17.never_loses", "SV.Props.C17.spills_before_dropping", "SV.Props.C17.legacy_F11"],
         "modules": ["SV.Props.C17"],
         "runs": [{"component": "adapter", "thorough_seeds": 2}],
+        "exhaustive": "thorough: all 13^5 histories over {put small, put large, hoa, get} x 3 keys + rm, memory tier of 2 items / 12 bytes",
         "rule": 'random Put/Get/Has/Peek histories (one third) and histories that also use HasOrAdd/Remove/Clear/Len/Keys (two thirds) on storageCacherAdapter over the real capacityLRU (item capacities 1-4, byte capacities 1..100000, sizes 0..1000, re-puts with other sizes) and memorydb / real LevelDB; each key bound to one immutable value; distinct = distinct (operation kind, canonical output) pairs',
         "assumptions": ['values serialise to >= 1 byte (the adapter skips empty serialisations); sizes are >= 0 (negative sizes are rejected by the LRU)'],
     },
